@@ -455,9 +455,11 @@ def same_problem_cases(draw):
             q["rebound"] = True
         ps.append(q)
     ops = ["solveA", "solveB", "stepA", "stepB", "stepA", "stepB"]
-    if draw(st.integers(0, 2)) == 0:
+    if draw(st.booleans()):
         # solver A is re-targeted to a sub-box through its own evolvent (Evolvent.SetBounds): A's business only
         ops.append("zoomA")
+        if draw(st.integers(0, 3)) > 0:
+            ps[0]["refine"] = True
     ops = draw(st.permutations(ops))
     if "shipped" in rec and draw(st.booleans()):
         # instead: two live instances of ONE shipped family (different members, an object each), interleaved; each
@@ -473,18 +475,24 @@ def same_problem_cases(draw):
             other = [arg[0], 1 + arg[1] % 100]
         return {"recipe": rec, "sibling": dict(rec, shipped=[name, other]), "pa": ps[0], "pb": ps[1],
                 "ops": [o for o in ops if o != "zoomA"], "k": draw(st.sampled_from([1, 3, 7]))}
-    return {"recipe": rec, "pa": ps[0], "pb": ps[1], "ops": list(ops), "k": draw(st.sampled_from([1, 3, 7]))}
+    return {"recipe": rec, "pa": ps[0], "pb": ps[1], "ops": list(ops), "k": draw(st.sampled_from([1, 3, 7])),
+            "late_b": draw(st.booleans())}
 
 
 def drive_same_problem(case, shared):
     pa, pb = case["pa"], case["pb"]
     a = Run(case["recipe"], pa, record=False, refine=bool(pa.get("refine")))
-    b = Run(case["recipe"], pb, record=False, refine=bool(pb.get("refine")), problem_obj=a.problem if shared else None)
-    runs = {"A": a, "B": b}
+    def make_b():
+        return Run(case["recipe"], pb, record=False, refine=bool(pb.get("refine")),
+                   problem_obj=a.problem if shared else None)
+    # solver B exists from the start, or (the problem's second user arrives later) only from its first call on
+    runs = {"A": a} if case.get("late_b") else {"A": a, "B": make_b()}
     done = {"A": False, "B": False}
     logs = {"A": [], "B": []}
     for op in case["ops"]:
         who = op[-1]
+        if who not in runs:
+            runs[who] = make_b()
         r = runs[who]
         k0 = len(r.problem.log)
         try:
